@@ -23,7 +23,7 @@ Definition erase_atom (a : atom) : toks :=
   | APath p => path_toks p
   | Kw s | Attr s | Assoc s | Def s | User s | Bind s | Prim s | Method s | Lit s => [s]
   end.
-Definition erase (l : list atom) : toks := flat_map erase_atom l.
+Notation erase := (flat_map erase_atom).
 
 Definition K (l : list string) : list atom := map Kw l.
 Definition U (l : toks) : list atom := map User l.
